@@ -119,7 +119,7 @@ class FilterCase(object):
                 self.expect.append(("res", r, impl.state_digest(h.state), idx))
             elif k == "at":
                 streaming = bool(ev[3]) if len(ev) > 3 else False
-                self.lines.append("at %s %s %d" % (impl.hexs(ev[1]), impl.hexs(ev[2]),
+                self.lines.append("at %s %s %d" % (impl.hexs(ev[1]), impl.hexs(ev[2] or ""),
                                                    1 if streaming else 0))
                 r = impl.call_at(h, ev[1], ev[2], streaming)
                 if r[0] == "err":
